@@ -137,6 +137,12 @@ def aggregate(prop, a, reports, jobs, seed, wall):
         else:
             st = "discharged"
         summary[oid] = st
+    exp_file = os.path.join(ROOT, "contracts", "EXPECTED.json")
+    expected = {}
+    if os.path.exists(exp_file):
+        with open(exp_file) as f:
+            expected = json.load(f)
+    expected_ids = set(expected.get(f"{prop}:{a.tier}", []))
     violations, known_hits, confirm_faults = [], [], []
     jobcases = {(cid, C.case_id(case)): case for cid, case, *_ in jobs}
     for oid, obs in sorted(obligations.items()):
@@ -178,7 +184,26 @@ def aggregate(prop, a, reports, jobs, seed, wall):
             if rp["confirmed"]:
                 violations.append((oid, ob, rp))
             else:
-                confirm_faults.append((oid, ob, rp))
+                # ghost-level obligations (solver histories, loop invariants): the counterexample is a sequence
+                # of solver answers, not an API input.  Search a bounded family of native runs for a concrete
+                # failing history; if none is found the violation is still reported, marked as such -- but only
+                # for an obligation that is known to be generated and discharged on the unchanged tree.
+                con = C.REGISTRY[ob["contract"]]
+                rp2 = None
+                if hasattr(con, "native_search"):
+                    try:
+                        rp2 = con.native_search(case, ob["params"], ob)
+                    except Exception as e:  # noqa
+                        rp2 = {"confirmed": False, "observation": {"native_search_error": f"{type(e).__name__}: {e}"}}
+                if rp2 and rp2["confirmed"]:
+                    violations.append((oid, ob, rp2))
+                elif getattr(con, "diff", "formulas") == "eval" and oid in expected_ids:
+                    obs = dict(rp.get("observation") or {})
+                    if rp2:
+                        obs["native_search"] = rp2["observation"]
+                    violations.append((oid, dict(ob, no_failing_input=True), {"confirmed": False, "observation": obs}))
+                else:
+                    confirm_faults.append((oid, ob, rp))
     # --- sentinels: every contract must have refuted sentinels (some case where the deliberately wrong
     # clause fails); a contract whose sentinels are never refuted looks at nothing
     by_con = {}
@@ -196,11 +221,6 @@ def aggregate(prop, a, reports, jobs, seed, wall):
         if flags and all(flags):
             faults.append(f"{cid}: every soundness obligation is vacuous (assertions unsatisfiable on every path)")
     # --- expected obligations
-    exp_file = os.path.join(ROOT, "contracts", "EXPECTED.json")
-    expected = {}
-    if os.path.exists(exp_file):
-        with open(exp_file) as f:
-            expected = json.load(f)
     key = f"{prop}:{a.tier}"
     if a.record_expected:
         expected[key] = sorted(obligations)
@@ -249,7 +269,8 @@ def aggregate(prop, a, reports, jobs, seed, wall):
                     "raised": ob.get("raised"),
                     "note": ob.get("note"),
                     "trace": ob.get("trace"),
-                    "verifier": {"backend": ob.get("backend"), "answer": "sat (negated obligation satisfiable)"},
+                    "verifier": {"backend": ob.get("backend"), "answer": "sat (negated obligation satisfiable)", "counterexample_parameters": ob.get("params"), "counterexample_unknowns": ob.get("schedule")},
+                    "no_failing_input_found": bool(ob.get("no_failing_input")),
                     "native_observation": rp["observation"],
                 },
                 f,
@@ -257,7 +278,7 @@ def aggregate(prop, a, reports, jobs, seed, wall):
                 default=str,
             )
         vio_files.append(fn)
-        print(f"VIOLATION property={prop} replay={fn}")
+        print(f"VIOLATION property={prop} replay={fn}" + (" no-failing-input-found" if ob.get("no_failing_input") else ""))
         if a.verbose:
             print("   ", oid, ob["params"], ob.get("note"))
     n_ob = len(summary)
